@@ -148,6 +148,7 @@ type VC struct {
 	// function under proof (-1: outside any block)
 	marks  []blkMark
 	topCon *Contract // contract of the function under proof
+	cutFacts map[int]bool // indices of facts assumed at cut points (value lemmas; frames do not need them)
 	curBlk int
 	anc    map[int]map[int]bool // block → blocks with a forward path to it (itself included)
 }
@@ -303,7 +304,17 @@ func (o *Obligation) queryModeB(withModel, tight, byBlock bool) string {
 		anc := vc.anc[o.Blk]
 		blk := vc.blockOfFacts(o.Prefix)
 		kept := make([]string, 0, len(all))
+		// frame obligations and frame invariants do not need the value lemmas
+		// assumed at cut points
+		frameLike := o.Kind == "frame"
+		if strings.HasPrefix(o.Kind, "inv.") {
+			cl := o.Name[strings.LastIndex(o.Name, "/")+1:]
+			frameLike = isFrameClause(cl)
+		}
 		for i, f := range all {
+			if frameLike && vc.cutFacts[i] {
+				continue
+			}
 			if blk[i] != -1 && !anc[blk[i]] && strings.HasPrefix(f, "(assert") && strings.Contains(f, "!") {
 				if os.Getenv("GOVC_DEBUG_BLK") == o.Name {
 					fmt.Fprintf(os.Stderr, "DROP b%d %.200s\n", blk[i], f)
